@@ -337,3 +337,9 @@ func (e *Env) Process(height uint32, txs []interfaces.Transaction) {
 	e.Height = height
 	e.Committee.ProcessBlock(Block(height, txs), nil)
 }
+
+// ClaimNode: council member did claims the DPoS node key (current term).
+func ClaimNode(nodePub []byte, did common.Uint168, n uint64) interfaces.Transaction {
+	return mk(common2.TxVersion09, common2.CRCouncilMemberClaimNode, payload.CurrentCRClaimDPoSNodeVersion,
+		&payload.CRCouncilMemberClaimNode{NodePublicKey: nodePub, CRCouncilCommitteeDID: did}, n, nil, nil, nil)
+}
